@@ -287,3 +287,31 @@ claim('C17',
       'analysis error, never as a violation).',
       'ast idiom typing of run-time einsum leg lists + sibling backend-arm comparison',
       'DESIGN.md 4 (PT), 5 C17')
+
+
+# ---- clauses added with the second half of the round-3 rules (DESIGN.md 4, "Round-3 batch, second half")
+also('C02', 'no forward trivialization map (to_*, forward) applies a saturating function (clip / clamp / maximum / minimum / relu / floor / round / sign) to a value '
+            'derived from its parameter - such a map is constant in that coordinate on an open set, a zero Jacobian column at generic points (W8, 29 maps).')
+also('C06', 'a broadcast outer product v v^dagger conjugates the factor whose vector index is the last axis (HM4: the CHA projector is not transposed); no function that '
+            'answers by solving a convex program returns a value before the first solve (SDP1, 15 functions: constraint options cannot be bypassed); '
+            'get_ppt_boundary keeps within_dm=True by default (DF1: beta_PPT <= beta_DM for a plain call).')
+also('C08', 'the scalar index -> F2 conversion keeps the phase bits of its Pauli string and drops them only when with_sign is false (E5); a shape snapshot used to restore a '
+            'batch layout is taken before the array is flattened (ST2); no flag parameter is tested with `is True` / `is False` (ID1: numpy booleans honoured).')
+also('C09', 'under an open-rank guard a new axis is appended with an Ellipsis (EL1: transvection on batches of any rank); float-default array constructors in the GF(2) modules '
+            'name an integer dtype (DT5: the closed-form inverse stays a uint8 group element); a tuple of digits is never (N % b for b in bases) without the running '
+            'quotient (MR1).')
+also('C10', 'a (count, dim) sample is normalised per vector, with the axis named (N2); an unseeded generator is constructed only in the arm selected by `seed is None`, never '
+            'in a fall-through else (S8: numpy integer seeds stay seeds).')
+also('C11', 'every exit of measure_quantum_vector returns the collapsed zero-initialised buffer, none the input state (M3f); Circuit builder methods never assign attributes of a '
+            'gate object they were given (PU2).')
+also('C13', 'no closed form calls scipy.linalg.sqrtm (F6); scipy.special.entr is never applied to a raw eigvalsh / eigh / svd output (F7); each of the four convex-roof setters '
+            'asserts that the kept eigenvalues sum to one AFTER the rank truncation (V3: the loss is a decomposition of the given state, not of a truncation).')
+also('C14', 'no function keeps a hand-rolled memo in a module-level container that is not keyed by its arguments (MC2); no array is indexed with a list taken from a set (SO1); '
+            'no option is normalised and then never used (UP1: `alternating`).')
+also('C15', 'a buffer that receives angles never takes its dtype from an input (DT6: integer-typed rotation matrices); `param or default` is not used on numeric parameters '
+            '(FZ1: spin 0); a tolerance parameter that is never read is forwarded to the callee that takes the same parameter (FW1).')
+also('C17', 'no call passes two bare names to a callee whose parameters carry those names in crossed positions (AR3 on dicke + utils).')
+also('C18', 'no public constructor hands out the array of an unfrozen memoised helper (O3B); where a function clamps an input parameter, a square-root radicand computed from it '
+            'is clamped itself (F8: closed forms vanish, not NaN, at the end point); each block of the six-parameter UPB reads only its own party\'s parameters (RP1).')
+also('C20', 'an eigenvector taken from eigh / eigsh is a column `[:, k]`, never a row (EV1: numerical-range points attain the support function); a default-float buffer '
+            'never receives whole items of a sequence derived from the (possibly complex) input (DT4).')
